@@ -512,7 +512,13 @@ func init() {
 			if s.Hostile && s.R.Chance(1, 3) {
 				name = s.Str()
 			}
-			if info, err := s.Doc.AddImageFromData(im.Data, name, imgFormat(im.Format), im.W, im.H, s.imageConfig()); err == nil {
+			format := imgFormat(im.Format)
+			if s.R.Chance(1, 8) {
+				// the format is a string type: the caller may name a format the library has no constant for, or spell one differently;
+				// the call may refuse it, but a picture it accepts is a part like any other
+				format = document.ImageFormat([]string{"bmp", "", "PNG", "jpg", "tiff", "svg+xml", "image/png", s.Str()}[s.R.Intn(8)])
+			}
+			if info, err := s.Doc.AddImageFromData(im.Data, name, format, im.W, im.H, s.imageConfig()); err == nil {
 				s.Images = append(s.Images, info)
 			}
 		}},
